@@ -900,7 +900,7 @@ func (em *emitter) emitUnaryOp(expr *ast.UnaryOperator, reg int8, regType reflec
 
 	// *operand
 	case ast.OperatorPointer:
-		exprReg := em.emitExpr(operand, operandType)
+		exprReg := em.directRegister(em.emitExpr(operand, operandType), operandType)
 		if canEmitDirectly(exprType.Kind(), regType.Kind()) {
 			em.changeRegister(false, -exprReg, reg, operandType.Elem(), regType)
 			return
